@@ -24,7 +24,7 @@ From JSL Require Import Base Instance.
 
 Definition stream := list Z.
 
-(** ** Parameters and the mutable part of a generator *)
+(** ** Settings and the mutable part of a generator *)
 Record params := mkparams {
   jlo : nat; jhi : nat;            (* num_jobs_range *)
   mlo : nat; mhi : nat;            (* num_machines_range *)
